@@ -404,5 +404,718 @@ theorem run_ok_iff (ops : List (Entry O E)) (l : ExtList K O E) :
   · rintro ⟨hnd, rfl⟩
     exact h.2 hnd
 
+/-! #### finishing a registry in closed form -/
+
+theorem filterMap_congr' {α β : Type} {f g : α → Option β} :
+    ∀ {l : List α}, (∀ x ∈ l, f x = g x) → l.filterMap f = l.filterMap g := by
+  intro l
+  induction l with
+  | nil => intro _; rfl
+  | cons a l ih =>
+    intro h
+    simp only [List.filterMap_cons, h a (by simp)]
+    rw [ih (fun x hx => h x (by simp [hx]))]
+
+/-- the (original, extensions) pair of a key -/
+def pairOf (ops : List (Entry O E)) (k : K) : Option (O × List E) :=
+  (origsOf kO k ops).head?.map fun o => (o, extsOf kE k ops)
+
+theorem intoPairs_map_ok (ops : List (Entry O E)) :
+    ∀ ks : List K, (∀ k ∈ ks, k ∈ origKeys kO ops) →
+      intoPairs (ks.map (mkItem kO kE ops)) = .ok (ks.filterMap (pairOf kO kE ops)) := by
+  intro ks
+  induction ks with
+  | nil => intro _; rfl
+  | cons a ks ih =>
+    intro h
+    have ha : origsOf kO a ops ≠ [] := fun hn => (origsOf_eq_nil_iff kO a ops).mp hn (h a (by simp))
+    cases ho : origsOf kO a ops with
+    | nil => exact absurd ho ha
+    | cons o r =>
+      simp [intoPairs, mkItem, pairOf, ho]
+      rw [ih (fun k hk => h k (by simp [hk]))]
+
+theorem intoPairs_map_err (ops : List (Entry O E)) (k : K) (e : E) (he : (extsOf kE k ops).head? = some e) :
+    ∀ ks : List K, ks.find? (fun k => decide (k ∉ origKeys kO ops)) = some k →
+      intoPairs (ks.map (mkItem kO kE ops)) = .error e := by
+  intro ks
+  induction ks with
+  | nil => intro h; simp at h
+  | cons a ks ih =>
+    intro h
+    by_cases hp : a ∉ origKeys kO ops
+    · simp only [List.find?_cons, hp, not_false_eq_true, decide_true] at h
+      have hak : a = k := by simpa using h
+      subst hak
+      have ho := (origsOf_eq_nil_iff kO a ops).mpr hp
+      cases hx : extsOf kE a ops with
+      | nil => rw [hx] at he; simp at he
+      | cons x r =>
+        rw [hx] at he
+        simp at he
+        subst he
+        simp [intoPairs, mkItem, ho, hx]
+    · have hp' : a ∈ origKeys kO ops := Classical.byContradiction hp
+      simp only [List.find?_cons, hp', not_true_eq_false, decide_false] at h
+      have ha : origsOf kO a ops ≠ [] := fun hn => (origsOf_eq_nil_iff kO a ops).mp hn hp'
+      cases ho : origsOf kO a ops with
+      | nil => exact absurd ho ha
+      | cons o r =>
+        simp [intoPairs, mkItem, ho]
+        rw [ih h]
+
+/-- the first extension (in feeding order) whose key has no original, seen from the key sequence -/
+theorem find?_orphan (OK : List K) (e : E) :
+    ∀ ops : List (Entry O E), (∀ o ∈ origsAll ops, kO o ∈ OK) →
+      (extsAll ops).find? (fun e => decide (kE e ∉ OK)) = some e →
+        (ops.map (Entry.key kO kE)).find? (fun k => decide (k ∉ OK)) = some (kE e) ∧
+          (extsOf kE (kE e) ops).head? = some e := by
+  intro ops
+  induction ops with
+  | nil => intro _ h; simp [extsAll] at h
+  | cons op ops ih =>
+    intro hO h
+    cases op with
+    | orig o =>
+      have ho : kO o ∈ OK := hO o (by simp [origsAll])
+      have := ih (fun o' ho' => hO o' (by simp [origsAll] at ho' ⊢; exact Or.inr ho')) (by simpa [extsAll] using h)
+      simpa [Entry.key, ho, extsOf] using this
+    | ext e' =>
+      by_cases hp : kE e' ∉ OK
+      · have : e' = e := by simpa [extsAll, hp] using h
+        subst this
+        simp [Entry.key, hp, extsOf]
+      · have hp' : kE e' ∈ OK := Classical.byContradiction hp
+        have h' : (extsAll ops).find? (fun e => decide (kE e ∉ OK)) = some e := by
+          simpa [extsAll, hp'] using h
+        have := ih (fun o' ho' => hO o' (by simpa [origsAll] using ho')) h'
+        have hne : kE e' ≠ kE e := by
+          intro heq
+          have := List.find?_some h'
+          simp at this
+          exact this (heq ▸ hp')
+        simpa [Entry.key, hp', extsOf, hne] using this
+
+theorem mem_origKeys_of_orig {ops : List (Entry O E)} {o : O} (h : Entry.orig o ∈ ops) : kO o ∈ origKeys kO ops := by
+  simp only [origKeys, List.mem_filterMap]
+  exact ⟨_, h, rfl⟩
+
+theorem mem_origsAll {ops : List (Entry O E)} {o : O} : o ∈ origsAll ops ↔ Entry.orig o ∈ ops := by
+  simp only [origsAll, List.mem_filterMap]
+  constructor
+  · rintro ⟨op, hop, h⟩
+    cases op <;> simp_all
+  · intro h; exact ⟨_, h, rfl⟩
+
+theorem mem_extsAll {ops : List (Entry O E)} {e : E} : e ∈ extsAll ops ↔ Entry.ext e ∈ ops := by
+  simp only [extsAll, List.mem_filterMap]
+  constructor
+  · rintro ⟨op, hop, h⟩
+    cases op <;> simp_all
+  · intro h; exact ⟨_, h, rfl⟩
+
+/-- finishing the closed form: the first orphan extension is the error; without orphans, the pairs of the keys -/
+theorem intoPairs_group (ops : List (Entry O E)) :
+    intoPairs (group kO kE ops) =
+      match (extsAll ops).find? (fun e => decide (kE e ∉ origKeys kO ops)) with
+      | some e => .error e
+      | none => .ok ((firstKeys (ops.map (Entry.key kO kE))).filterMap (pairOf kO kE ops)) := by
+  cases hf : (extsAll ops).find? (fun e => decide (kE e ∉ origKeys kO ops)) with
+  | some e =>
+    have := find?_orphan kO kE (origKeys kO ops) e ops
+      (fun o ho => mem_origKeys_of_orig kO (mem_origsAll.mp ho)) hf
+    simp only
+    unfold group
+    apply intoPairs_map_err kO kE ops (kE e) e this.2
+    rw [find?_firstKeys]
+    exact this.1
+  | none =>
+    simp only
+    unfold group
+    apply intoPairs_map_ok
+    intro k hk
+    rw [mem_firstKeys, List.mem_map] at hk
+    obtain ⟨op, hop, rfl⟩ := hk
+    cases op with
+    | orig o => exact mem_origKeys_of_orig kO hop
+    | ext e =>
+      rw [List.find?_eq_none] at hf
+      have := hf e (mem_extsAll.mpr hop)
+      simpa [Entry.key] using this
+
+/-- the same with any Boolean test for "the key has no original" -/
+theorem intoPairs_group' (ops : List (Entry O E)) (p : E → Bool)
+    (hp : ∀ e, p e = true ↔ kE e ∉ origKeys kO ops) :
+    intoPairs (group kO kE ops) =
+      match (extsAll ops).find? p with
+      | some e => .error e
+      | none => .ok ((firstKeys (ops.map (Entry.key kO kE))).filterMap (pairOf kO kE ops)) := by
+  have : p = fun e => decide (kE e ∉ origKeys kO ops) := by
+    funext e
+    have := hp e
+    cases hpe : p e <;> simp_all
+  subst this
+  exact intoPairs_group kO kE ops
+
+theorem filter_eq_singleton {α : Type} (f : α → K) :
+    ∀ (l : List α) (o : α), (l.map f).Nodup → o ∈ l → l.filter (fun x => f x = f o) = [o] := by
+  intro l
+  induction l with
+  | nil => intro o _ h; simp at h
+  | cons a l ih =>
+    intro o hnd ho
+    simp only [List.map_cons, List.nodup_cons, List.mem_map, not_exists, not_and] at hnd
+    rcases List.mem_cons.mp ho with rfl | ho'
+    · have : l.filter (fun x => f x = f o) = [] := by
+        rw [List.filter_eq_nil_iff]
+        intro x hx
+        have := hnd.1 x hx
+        simpa using this
+      simp [List.filter_cons, this]
+    · have hne : f a ≠ f o := fun h => hnd.1 o ho' h.symm
+      simp [List.filter_cons, hne, ih o hnd.2 ho']
+
+/-- without duplicate originals, the pairs of the keys are, up to order, every original with the extensions of its key -/
+theorem pairs_perm (ops : List (Entry O E)) (hnd : (origKeys kO ops).Nodup) :
+    ((firstKeys (ops.map (Entry.key kO kE))).filterMap (pairOf kO kE ops)).Perm
+      ((origsAll ops).map fun o => (o, extsOf kE (kO o) ops)) := by
+  -- the keys that have an original
+  have h1 : (firstKeys (ops.map (Entry.key kO kE))).filterMap (pairOf kO kE ops) =
+      ((firstKeys (ops.map (Entry.key kO kE))).filter (fun k => decide (k ∈ origKeys kO ops))).filterMap
+        (pairOf kO kE ops) := by
+    rw [List.filterMap_filter]
+    apply filterMap_congr'
+    intro k _
+    by_cases hk : k ∈ origKeys kO ops
+    · simp [hk]
+    · have := (origsOf_eq_nil_iff kO k ops).mpr hk
+      simp [hk, pairOf, this]
+  have h2 : ((firstKeys (ops.map (Entry.key kO kE))).filter (fun k => decide (k ∈ origKeys kO ops))).Perm
+      (origKeys kO ops) := by
+    rw [List.perm_ext_iff_of_nodup ((nodup_firstKeys _).sublist List.filter_sublist) hnd]
+    intro k
+    simp only [List.mem_filter, mem_firstKeys, decide_eq_true_eq, and_iff_right_iff_imp]
+    intro hk
+    simp only [origKeys, List.mem_filterMap] at hk
+    obtain ⟨op, hop, hk⟩ := hk
+    cases op with
+    | ext e => simp at hk
+    | orig o =>
+      simp at hk
+      exact List.mem_map.mpr ⟨_, hop, by simpa [Entry.key] using hk⟩
+  have h3 : (origKeys kO ops).filterMap (pairOf kO kE ops) =
+      (origsAll ops).map fun o => (o, extsOf kE (kO o) ops) := by
+    rw [origKeys_eq_map, List.filterMap_map, ← List.filterMap_eq_map]
+    apply filterMap_congr'
+    intro o ho
+    have := filter_eq_singleton kO (origsAll ops) o (by rw [← origKeys_eq_map]; exact hnd) ho
+    simp [pairOf, origsOf_eq_filter, this]
+  rw [h1, ← h3]
+  exact h2.filterMap _
+
 end generic
+
+/-! ### Part 2: the scan loop = seven independent registries fed with the projections of the document -/
+
+open NitroVerif.ExtMerge
+
+theorem sortByPos_perm {α : Type} (f : α → Pos) : ∀ l : List α, (sortByPos f l).Perm l := by
+  have hins : ∀ (x : α) (l : List α), (insertByPos f x l).Perm (x :: l) := by
+    intro x l
+    induction l with
+    | nil => simp [insertByPos]
+    | cons y ys ih =>
+      simp only [insertByPos]
+      split
+      · exact List.Perm.refl _
+      · exact ((List.Perm.cons y ih).trans (List.Perm.swap x y ys))
+  intro l
+  induction l with
+  | nil => simp [sortByPos]
+  | cons x xs ih => exact (hins x _).trans (List.Perm.cons x ih)
+
+def projS : TsItem → Option (Entry SchemaDef SchemaDef)
+  | .schemaDef s => some (.orig s)
+  | .schemaExt s => some (.ext s)
+  | .typeDef _ => none
+  | .typeExt _ => none
+  | .directiveDef _ => none
+
+def projT (k : TypeKind) : TsItem → Option (Entry TypeDef TypeDef)
+  | .typeDef t => if t.kind = k then some (.orig t) else none
+  | .typeExt t => if t.kind = k then some (.ext t) else none
+  | .schemaDef _ => none
+  | .schemaExt _ => none
+  | .directiveDef _ => none
+
+/-- registry keys (`HasPos::name`) -/
+def kS : SchemaDef → Key := fun _ => none
+def kT : TypeDef → Key := fun t => some t.name
+
+def opsS (doc : TsDoc) : List (Entry SchemaDef SchemaDef) := doc.filterMap projS
+def opsT (k : TypeKind) (doc : TsDoc) : List (Entry TypeDef TypeDef) := doc.filterMap (projT k)
+
+def dirsOf (doc : TsDoc) : List DirectiveDef :=
+  doc.filterMap fun | .directiveDef d => some d | _ => none
+
+theorem scan_ok : ∀ (doc : TsDoc) (st st' : St), scan st doc = .ok st' →
+    runFrom kS kS st.schema (opsS doc) = .ok st'.schema ∧
+    (∀ k, runFrom kT kT (st.types k) (opsT k doc) = .ok (st'.types k)) ∧
+    st'.directives = st.directives ++ dirsOf doc := by
+  intro doc
+  induction doc with
+  | nil =>
+    intro st st' h
+    simp only [scan, Except.ok.injEq] at h
+    subst h
+    simp [opsS, opsT, runFrom, dirsOf]
+  | cons it r ih =>
+    intro st st' h
+    simp only [scan] at h
+    cases hs : step st it with
+    | error e => rw [hs] at h; simp at h
+    | ok st1 =>
+      rw [hs] at h
+      have ih' := ih st1 st' h
+      cases it with
+      | schemaDef s =>
+        simp only [step] at hs
+        cases hso : setOriginal st.schema none s with
+        | error f => rw [hso] at hs; simp at hs
+        | ok l =>
+          rw [hso] at hs
+          simp only [Except.ok.injEq] at hs
+          subst hs
+          refine ⟨?_, ?_, ?_⟩
+          · simp only [opsS, List.filterMap_cons, projS, runFrom, applyEntry, kS, hso]
+            exact ih'.1
+          · intro k; simpa [opsT, projT, List.filterMap_cons] using ih'.2.1 k
+          · simpa [dirsOf] using ih'.2.2
+      | typeDef t =>
+        simp only [step] at hs
+        cases hso : setOriginal (st.types t.kind) (some t.name) t with
+        | error f => rw [hso] at hs; simp at hs
+        | ok l =>
+          rw [hso] at hs
+          simp only [Except.ok.injEq] at hs
+          subst hs
+          refine ⟨?_, ?_, ?_⟩
+          · simpa [opsS, projS, List.filterMap_cons] using ih'.1
+          · intro k
+            have := ih'.2.1 k
+            by_cases hk : k = t.kind
+            · subst hk
+              simp only [opsT, List.filterMap_cons, projT, if_true, runFrom, applyEntry, kT, hso]
+              simpa [opsT] using this
+            · have hk' : ¬ t.kind = k := fun h => hk h.symm
+              simpa [opsT, projT, List.filterMap_cons, hk, hk'] using this
+          · simpa [dirsOf] using ih'.2.2
+      | directiveDef d =>
+        simp only [step, Except.ok.injEq] at hs
+        subst hs
+        refine ⟨?_, ?_, ?_⟩
+        · simpa [opsS, projS, List.filterMap_cons] using ih'.1
+        · intro k; simpa [opsT, projT, List.filterMap_cons] using ih'.2.1 k
+        · simpa [dirsOf] using ih'.2.2
+      | schemaExt s =>
+        simp only [step, Except.ok.injEq] at hs
+        subst hs
+        refine ⟨?_, ?_, ?_⟩
+        · simp only [opsS, List.filterMap_cons, projS, runFrom, applyEntry, kS]
+          exact ih'.1
+        · intro k; simpa [opsT, projT, List.filterMap_cons] using ih'.2.1 k
+        · simpa [dirsOf] using ih'.2.2
+      | typeExt t =>
+        simp only [step, Except.ok.injEq] at hs
+        subst hs
+        refine ⟨?_, ?_, ?_⟩
+        · simpa [opsS, projS, List.filterMap_cons] using ih'.1
+        · intro k
+          have := ih'.2.1 k
+          by_cases hk : k = t.kind
+          · subst hk
+            simp only [opsT, List.filterMap_cons, projT, if_true, runFrom, applyEntry, kT]
+            simpa [opsT] using this
+          · have hk' : ¬ t.kind = k := fun h => hk h.symm
+            simpa [opsT, projT, List.filterMap_cons, hk, hk'] using this
+        · simpa [dirsOf] using ih'.2.2
+
+theorem scan_error : ∀ (doc : TsDoc) (st : St) (e : ExtError), scan st doc = .error e →
+    ∃ pre it post st1, doc = pre ++ it :: post ∧ scan st pre = .ok st1 ∧ step st1 it = .error e := by
+  intro doc
+  induction doc with
+  | nil => intro st e h; simp [scan] at h
+  | cons it r ih =>
+    intro st e h
+    simp only [scan] at h
+    cases hs : step st it with
+    | error e' =>
+      rw [hs] at h
+      simp only [Except.error.injEq] at h
+      subst h
+      exact ⟨[], it, r, st, rfl, rfl, hs⟩
+    | ok st1 =>
+      rw [hs] at h
+      obtain ⟨pre, it', post, st2, hd, hp, he⟩ := ih st1 e h
+      exact ⟨it :: pre, it', post, st2, by simp [hd], by simp [scan, hs, hp], he⟩
+
+/-- after a successful scan from the empty state every registry is the closed form of its projection -/
+theorem scan_empty_ok (doc : TsDoc) (st : St) (h : scan {} doc = .ok st) :
+    ((origKeys kS (opsS doc)).Nodup ∧ st.schema = group kS kS (opsS doc)) ∧
+    (∀ k, (origKeys kT (opsT k doc)).Nodup ∧ st.types k = group kT kT (opsT k doc)) ∧
+    st.directives = dirsOf doc := by
+  have := scan_ok doc {} st h
+  refine ⟨(run_ok_iff kS kS _ _).mp this.1, fun k => (run_ok_iff kT kT _ _).mp (this.2.1 k), ?_⟩
+  simpa using this.2.2
+
+/-! #### projections vs. the specification's views of the document -/
+
+theorem origsAll_opsT (k : TypeKind) (doc : TsDoc) : origsAll (opsT k doc) = typeDefs k doc := by
+  induction doc with
+  | nil => rfl
+  | cons it r ih =>
+    cases it with
+    | typeDef t =>
+      by_cases h : t.kind = k <;> simpa [origsAll, opsT, projT, List.filterMap_cons, typeDefs, h] using ih
+    | typeExt t =>
+      by_cases h : t.kind = k <;> simpa [origsAll, opsT, projT, List.filterMap_cons, typeDefs, h] using ih
+    | _ => simpa [origsAll, opsT, projT, List.filterMap_cons, typeDefs] using ih
+
+theorem extsAll_opsT (k : TypeKind) (doc : TsDoc) : extsAll (opsT k doc) = typeExtsOfKind k doc := by
+  induction doc with
+  | nil => rfl
+  | cons it r ih =>
+    cases it with
+    | typeDef t =>
+      by_cases h : t.kind = k <;> simpa [extsAll, opsT, projT, List.filterMap_cons, typeExtsOfKind, h] using ih
+    | typeExt t =>
+      by_cases h : t.kind = k <;> simpa [extsAll, opsT, projT, List.filterMap_cons, typeExtsOfKind, h] using ih
+    | _ => simpa [extsAll, opsT, projT, List.filterMap_cons, typeExtsOfKind] using ih
+
+theorem extsOf_opsT (k : TypeKind) (n : Name) (doc : TsDoc) : extsOf kT (some n) (opsT k doc) = typeExts k n doc := by
+  induction doc with
+  | nil => rfl
+  | cons it r ih =>
+    cases it with
+    | typeDef t =>
+      by_cases h : t.kind = k <;> simpa [extsOf, opsT, projT, List.filterMap_cons, typeExts, h] using ih
+    | typeExt t =>
+      by_cases h : t.kind = k
+      · by_cases hn : t.name = n <;> simpa [extsOf, opsT, projT, List.filterMap_cons, typeExts, h, hn, kT] using ih
+      · simpa [extsOf, opsT, projT, List.filterMap_cons, typeExts, h] using ih
+    | _ => simpa [extsOf, opsT, projT, List.filterMap_cons, typeExts] using ih
+
+theorem origKeys_opsT (k : TypeKind) (doc : TsDoc) :
+    origKeys kT (opsT k doc) = ((typeDefs k doc).map (·.name)).map some := by
+  rw [origKeys_eq_map, origsAll_opsT]
+  simp [kT]
+
+theorem nodup_map_some {α : Type} (l : List α) : (l.map some).Nodup ↔ l.Nodup := by
+  induction l with
+  | nil => simp
+  | cons a l ih => simp [List.nodup_cons, ih]
+
+theorem origsAll_opsS (doc : TsDoc) : origsAll (opsS doc) = schemaDefs doc := by
+  induction doc with
+  | nil => rfl
+  | cons it r ih => cases it <;> simpa [origsAll, opsS, projS, List.filterMap_cons, schemaDefs] using ih
+
+theorem extsAll_opsS (doc : TsDoc) : extsAll (opsS doc) = schemaExts doc := by
+  induction doc with
+  | nil => rfl
+  | cons it r ih => cases it <;> simpa [extsAll, opsS, projS, List.filterMap_cons, schemaExts] using ih
+
+theorem extsOf_opsS (doc : TsDoc) : extsOf kS none (opsS doc) = schemaExts doc := by
+  rw [extsOf_eq_filter, extsAll_opsS]
+  simp [kS]
+
+theorem origKeys_opsS (doc : TsDoc) : origKeys kS (opsS doc) = List.replicate (schemaDefs doc).length none := by
+  rw [origKeys_eq_map, origsAll_opsS]
+  induction schemaDefs doc with
+  | nil => rfl
+  | cons a l ih => simp [List.replicate_succ, ih, kS]
+
+theorem nodup_replicate_none (n : Nat) : (List.replicate n (none : Key)).Nodup ↔ n ≤ 1 := by
+  match n with
+  | 0 => simp
+  | 1 => simp
+  | n + 2 => simp [List.replicate_succ]
+
+/-! ### Part 3: finishing the registries -/
+
+theorem mergeOf_eq (t : TypeDef) (es : List TypeDef) : mergeOf t.kind (t, es) = refTypeWith t es := by
+  cases h : t.kind <;>
+    simp [mergeOf, mergeScalar, mergeObject, mergeInterface, mergeUnion, mergeEnum, mergeInput, refTypeWith,
+      hasImplements, hasFields, hasMembers, hasValues, hasInputs, h]
+
+theorem mergeSchema_eq (s : SchemaDef) (es : List SchemaDef) : mergeSchema (s, es) = refSchemaWith s es := rfl
+
+theorem mem_typeDefs {k : TypeKind} {doc : TsDoc} {t : TypeDef} :
+    t ∈ typeDefs k doc ↔ TsItem.typeDef t ∈ doc ∧ t.kind = k := by
+  simp only [typeDefs, List.mem_filterMap]
+  constructor
+  · rintro ⟨it, hit, h⟩
+    cases it with
+    | typeDef t' =>
+      by_cases hk : t'.kind = k
+      · simp [hk] at h; subst h; exact ⟨hit, hk⟩
+      · simp [hk] at h
+    | _ => simp at h
+  · rintro ⟨h, hk⟩
+    exact ⟨_, h, by simp [hk]⟩
+
+theorem mem_typeExtsOfKind {k : TypeKind} {doc : TsDoc} {t : TypeDef} :
+    t ∈ typeExtsOfKind k doc ↔ TsItem.typeExt t ∈ doc ∧ t.kind = k := by
+  simp only [typeExtsOfKind, List.mem_filterMap]
+  constructor
+  · rintro ⟨it, hit, h⟩
+    cases it with
+    | typeExt t' =>
+      by_cases hk : t'.kind = k
+      · simp [hk] at h; subst h; exact ⟨hit, hk⟩
+      · simp [hk] at h
+    | _ => simp at h
+  · rintro ⟨h, hk⟩
+    exact ⟨_, h, by simp [hk]⟩
+
+/-- the type registry of kind `k`, finished -/
+theorem typeItems_char (doc : TsDoc) (st : St) (k : TypeKind) (hst : st.types k = group kT kT (opsT k doc)) :
+    typeItems st k =
+      match (typeExtsOfKind k doc).find? (fun e => decide (e.name ∉ (typeDefs k doc).map (·.name))) with
+      | some e => .error (.noOriginal (elemName k) e.pos)
+      | none => .ok ((sortByPos (fun p => p.1.pos)
+          ((firstKeys ((opsT k doc).map (Entry.key kT kT))).filterMap (pairOf kT kT (opsT k doc)))).map
+            fun p => .typeDef (mergeOf k p)) := by
+  have h := intoPairs_group' kT kT (opsT k doc) (fun e => decide (e.name ∉ (typeDefs k doc).map (·.name)))
+    (fun e => by simp [origKeys_opsT, kT])
+  rw [extsAll_opsT] at h
+  unfold typeItems finishList
+  rw [hst, h]
+  cases (typeExtsOfKind k doc).find? (fun e => decide (e.name ∉ (typeDefs k doc).map (·.name))) <;> rfl
+
+theorem typeItems_perm (doc : TsDoc) (k : TypeKind) (hnd : ((typeDefs k doc).map (·.name)).Nodup) :
+    (((sortByPos (fun p : TypeDef × List TypeDef => p.1.pos)
+          ((firstKeys ((opsT k doc).map (Entry.key kT kT))).filterMap (pairOf kT kT (opsT k doc)))).map
+            fun p => TsItem.typeDef (mergeOf k p))).Perm
+      ((typeDefs k doc).map fun t => .typeDef (refType doc t)) := by
+  have hnd' : (origKeys kT (opsT k doc)).Nodup := by rw [origKeys_opsT, nodup_map_some]; exact hnd
+  have h := ((sortByPos_perm (fun p : TypeDef × List TypeDef => p.1.pos) _).trans
+    (pairs_perm kT kT (opsT k doc) hnd')).map (fun p => TsItem.typeDef (mergeOf k p))
+  refine h.trans ?_
+  rw [origsAll_opsT, List.map_map]
+  have : (typeDefs k doc).map ((fun p => TsItem.typeDef (mergeOf k p)) ∘ fun o => (o, extsOf kT (kT o) (opsT k doc))) =
+      (typeDefs k doc).map fun t => .typeDef (refType doc t) := by
+    apply List.map_congr_left
+    intro t ht
+    have hk := (mem_typeDefs.mp ht).2
+    subst hk
+    simp only [Function.comp, kT, extsOf_opsT, refType, mergeOf_eq]
+  rw [this]
+
+theorem schemaItems_char (doc : TsDoc) (st : St) (hst : st.schema = group kS kS (opsS doc)) :
+    schemaItems st =
+      match (schemaExts doc).find? (fun _ => decide (schemaDefs doc = [])) with
+      | some e => .error (.noOriginal "schema" e.pos)
+      | none => .ok ((sortByPos (fun p => p.1.pos)
+          ((firstKeys ((opsS doc).map (Entry.key kS kS))).filterMap (pairOf kS kS (opsS doc)))).map
+            fun p => .schemaDef (mergeSchema p)) := by
+  have h := intoPairs_group' kS kS (opsS doc) (fun _ => decide (schemaDefs doc = []))
+    (fun e => by rw [origKeys_opsS]; cases schemaDefs doc <;> simp [kS, List.replicate_succ])
+  rw [extsAll_opsS] at h
+  unfold schemaItems finishList
+  rw [hst, h]
+  cases (schemaExts doc).find? (fun _ => decide (schemaDefs doc = [])) <;> rfl
+
+theorem schemaItems_perm (doc : TsDoc) (hnd : (schemaDefs doc).length ≤ 1) :
+    (((sortByPos (fun p : SchemaDef × List SchemaDef => p.1.pos)
+          ((firstKeys ((opsS doc).map (Entry.key kS kS))).filterMap (pairOf kS kS (opsS doc)))).map
+            fun p => TsItem.schemaDef (mergeSchema p))).Perm
+      ((schemaDefs doc).map fun s => .schemaDef (refSchema doc s)) := by
+  have hnd' : (origKeys kS (opsS doc)).Nodup := by rw [origKeys_opsS, nodup_replicate_none]; exact hnd
+  have h := ((sortByPos_perm (fun p : SchemaDef × List SchemaDef => p.1.pos) _).trans
+    (pairs_perm kS kS (opsS doc) hnd')).map (fun p => TsItem.schemaDef (mergeSchema p))
+  refine h.trans ?_
+  rw [origsAll_opsS, List.map_map]
+  have : (schemaDefs doc).map ((fun p => TsItem.schemaDef (mergeSchema p)) ∘ fun o => (o, extsOf kS (kS o) (opsS doc))) =
+      (schemaDefs doc).map fun s => .schemaDef (refSchema doc s) := by
+    apply List.map_congr_left
+    intro s _
+    simp only [Function.comp, kS, extsOf_opsS, refSchema, mergeSchema_eq]
+  rw [this]
+
+theorem typeItemsAll_ok (st : St) (X : TypeKind → List TsItem) :
+    ∀ ks : List TypeKind, (∀ k ∈ ks, ∃ items, typeItems st k = .ok items ∧ items.Perm (X k)) →
+      ∃ all, typeItemsAll st ks = .ok all ∧ all.Perm (ks.flatMap X) := by
+  intro ks
+  induction ks with
+  | nil => intro _; exact ⟨[], rfl, by simp⟩
+  | cons k ks ih =>
+    intro h
+    obtain ⟨items, hi, hp⟩ := h k (by simp)
+    obtain ⟨all, ha, hpa⟩ := ih (fun k' hk' => h k' (by simp [hk']))
+    exact ⟨items ++ all, by simp [typeItemsAll, hi, ha], by simpa using hp.append hpa⟩
+
+theorem typeItemsAll_ok_inv (st : St) :
+    ∀ (ks : List TypeKind) (all : List TsItem), typeItemsAll st ks = .ok all →
+      ∀ k ∈ ks, ∃ items, typeItems st k = .ok items := by
+  intro ks
+  induction ks with
+  | nil => intro _ _ k hk; simp at hk
+  | cons k ks ih =>
+    intro all h k' hk'
+    simp only [typeItemsAll] at h
+    cases hi : typeItems st k with
+    | error e => rw [hi] at h; simp at h
+    | ok items =>
+      rw [hi] at h
+      cases ha : typeItemsAll st ks with
+      | error e => rw [ha] at h; simp at h
+      | ok all' =>
+        rcases List.mem_cons.mp hk' with rfl | hk''
+        · exact ⟨_, hi⟩
+        · exact ih all' ha k' hk''
+
+theorem typeItemsAll_err (st : St) (e : ExtError) :
+    ∀ ks : List TypeKind, typeItemsAll st ks = .error e →
+      ∃ a k b, ks = a ++ k :: b ∧ (∀ k' ∈ a, ∃ items, typeItems st k' = .ok items) ∧ typeItems st k = .error e := by
+  intro ks
+  induction ks with
+  | nil => intro h; simp [typeItemsAll] at h
+  | cons k ks ih =>
+    intro h
+    simp only [typeItemsAll] at h
+    cases hi : typeItems st k with
+    | error e' =>
+      rw [hi] at h
+      simp only [Except.error.injEq] at h
+      subst h
+      exact ⟨[], k, ks, rfl, by simp, hi⟩
+    | ok items =>
+      rw [hi] at h
+      cases ha : typeItemsAll st ks with
+      | ok all' => rw [ha] at h; simp at h
+      | error e' =>
+        rw [ha] at h
+        simp only [Except.error.injEq] at h
+        subst h
+        obtain ⟨a, k2, b, hks, hok, herr⟩ := ih ha
+        refine ⟨k :: a, k2, b, by simp [hks], ?_, herr⟩
+        intro k' hk'
+        rcases List.mem_cons.mp hk' with rfl | hk''
+        · exact ⟨_, hi⟩
+        · exact hok k' hk''
+
+/-! ### Part 4: a list is, up to order, the concatenation of its classes -/
+
+theorem flatMap_if_neg {α C : Type} [DecidableEq C] (g : C → List α) (a : α) (c0 : C) :
+    ∀ cs : List C, c0 ∉ cs → (cs.flatMap fun c => if c = c0 then a :: g c else g c) = cs.flatMap g := by
+  intro cs
+  induction cs with
+  | nil => intro _; rfl
+  | cons d ds ih =>
+    intro h
+    have hd : d ≠ c0 := fun e => h (by simp [e])
+    simp only [List.flatMap_cons, hd, if_false]
+    rw [ih (fun hm => h (by simp [hm]))]
+
+theorem flatMap_insert_perm {α C : Type} [DecidableEq C] (g : C → List α) (a : α) (c0 : C) :
+    ∀ cs : List C, cs.Nodup → c0 ∈ cs →
+      (cs.flatMap fun c => if c = c0 then a :: g c else g c).Perm (a :: cs.flatMap g) := by
+  intro cs
+  induction cs with
+  | nil => intro _ h; simp at h
+  | cons c cs ih =>
+    intro hnd hm
+    rw [List.nodup_cons] at hnd
+    by_cases hc : c = c0
+    · subst hc
+      simp [List.flatMap_cons, flatMap_if_neg g a c cs hnd.1]
+    · have hm' : c0 ∈ cs := by
+        rcases List.mem_cons.mp hm with h | h
+        · exact absurd h.symm hc
+        · exact h
+      simp only [List.flatMap_cons, hc, if_false]
+      exact ((ih hnd.2 hm').append_left (g c)).trans List.perm_middle
+
+theorem filterMap_partition_perm {α β C : Type} [DecidableEq C] (cls : α → C) (f : α → Option β)
+    (cs : List C) (hnd : cs.Nodup) :
+    ∀ l : List α, (∀ x ∈ l, cls x ∈ cs) →
+      (l.filterMap f).Perm (cs.flatMap fun c => l.filterMap fun x => if cls x = c then f x else none) := by
+  intro l
+  induction l with
+  | nil =>
+    intro _
+    have : (cs.flatMap fun _ => ([] : List β)) = [] := by
+      induction cs with
+      | nil => rfl
+      | cons c cs ih => simp
+    simp
+  | cons x l ih =>
+    intro hx
+    have ih' := ih (fun y hy => hx y (by simp [hy]))
+    cases hfx : f x with
+    | none =>
+      have : (fun c => (x :: l).filterMap fun y => if cls y = c then f y else none) =
+          (fun c => l.filterMap fun y => if cls y = c then f y else none) := by
+        funext c
+        simp [List.filterMap_cons, hfx]
+      rw [this]
+      simpa [List.filterMap_cons, hfx] using ih'
+    | some b =>
+      have : (fun c => (x :: l).filterMap fun y => if cls y = c then f y else none) =
+          (fun c => if c = cls x then b :: (l.filterMap fun y => if cls y = c then f y else none)
+            else l.filterMap fun y => if cls y = c then f y else none) := by
+        funext c
+        by_cases hc : cls x = c
+        · subst hc; simp [List.filterMap_cons, hfx]
+        · have hc' : ¬ c = cls x := fun h => hc h.symm
+          simp [List.filterMap_cons, hc, hc']
+      rw [this]
+      have hp := flatMap_insert_perm (fun c => l.filterMap fun y => if cls y = c then f y else none) b (cls x) cs hnd
+        (hx x (by simp))
+      simp only [List.filterMap_cons, hfx]
+      exact (List.Perm.cons b ih').trans hp.symm
+
+/-- class of an item: `none` = the schema registry, `some k` = the registry of kind `k` -/
+def cls : TsItem → Option TypeKind
+  | .typeDef t => some t.kind
+  | .typeExt t => some t.kind
+  | .schemaDef _ => none
+  | .schemaExt _ => none
+  | .directiveDef _ => none
+
+theorem classS_eq (D : TsDoc) : ∀ doc : TsDoc,
+    (doc.filterMap fun x => if cls x = none then refItem? D x else none) =
+      (schemaDefs doc).map fun s => .schemaDef (refSchema D s) := by
+  intro doc
+  induction doc with
+  | nil => rfl
+  | cons it r ih => cases it <;> simpa [List.filterMap_cons, cls, refItem?, schemaDefs] using ih
+
+theorem classT_eq (D : TsDoc) (k : TypeKind) : ∀ doc : TsDoc,
+    (doc.filterMap fun x => if cls x = some k then refItem? D x else none) =
+      (typeDefs k doc).map fun t => .typeDef (refType D t) := by
+  intro doc
+  induction doc with
+  | nil => rfl
+  | cons it r ih =>
+    cases it with
+    | typeDef t => by_cases h : t.kind = k <;> simpa [List.filterMap_cons, cls, refItem?, typeDefs, h] using ih
+    | typeExt t => by_cases h : t.kind = k <;> simpa [List.filterMap_cons, cls, refItem?, typeDefs, h] using ih
+    | _ => simpa [List.filterMap_cons, cls, refItem?, typeDefs] using ih
+
+/-- the reference merge (document order) is, up to order, its schema part followed by its parts per kind -/
+theorem refMerge_perm (doc : TsDoc) :
+    (refMerge doc).Perm
+      (((schemaDefs doc).map fun s => TsItem.schemaDef (refSchema doc s)) ++
+        kindOrder.flatMap fun k => (typeDefs k doc).map fun t => TsItem.typeDef (refType doc t)) := by
+  have h := filterMap_partition_perm cls (refItem? doc) (none :: kindOrder.map some) (by decide) doc
+    (by intro x _; cases hx : cls x with
+        | none => simp
+        | some k => cases k <;> simp [kindOrder])
+  unfold refMerge
+  refine h.trans ?_
+  simp only [List.flatMap_cons, classS_eq, List.flatMap_map, classT_eq]
+  exact List.Perm.refl _
+
 end NitroVerif.ExtResolve
